@@ -630,3 +630,7 @@ impl InstrFormat for InstrFormat07 {
         f.write_u16(0)
     }
 }
+
+#[cfg(kani)]
+#[path = "/verif/contracts/kani/anm_read_write.rs"]
+mod verif_kani;
